@@ -2,6 +2,7 @@
 from fractions import Fraction
 
 import alignchk as ac
+import gen
 from common import rng_for, close, TAU2
 
 MODES = ["cbc", "glpk-noimport", "glpk-solvererror"]
@@ -9,7 +10,7 @@ RULE = ("every case is run under three solver configurations (CBC; cylp import m
         "each result is judged by the verified partition / cover checker, small cases are certified minimal by the verified search, medium "
         "ones (up to 2x14, 3x8, 4x5, 5x4 units) are compared across configurations within 2^-15; the solver actually passed to cvxpy is "
         "recorded and compared with the selection model (C08_fallback_total); 120 more continua with 3-4 annotators and combined dissimilarities are run under "
-        "the import-masked fallback alone and judged by the partition checker; non-trivial = all three configurations returned and the "
+        "the import-masked fallback alone and judged by the partition checker; 160 dense continua (3 x 6 heavily overlapping integer-coordinate units) are aligned (best and soft) under CBC and under the fallback and their disorders compared; non-trivial = all three configurations returned and the "
         "alignment has a tuple with two real units; distinct by (units, dissimilarity)")
 TRUSTED_BASE = ["Coq 8.16.1 kernel", "extraction (ExtrOcamlBasic only), ocaml/driver.ml", "harness/{common,align,alignchk,gen,c08}.py",
                 "the import hook masking cylp and the wrapper around cvxpy.Problem.solve (installed in the importing process)"]
@@ -36,6 +37,34 @@ def run(rep, tier, seed, pa):
                                                "solvers": [str(s) for s in res["solvers"]]},
                           "solve calls %r differ from the selection model %r" % (res["solvers"], EXPECTED["glpk-noimport"]))
     ac.judge_many(rep, items, part=True, want_optimal=False, limit=20, prefix="glpk-noimport:")
+    # dense continua (3 annotators x 6 mutually overlapping units): programs on which a branch-and-bound really has to branch, so that an
+    # approximate / truncated search in one back-end shows as a different disorder; best and soft, CBC against the import-masked fallback
+    dense = []
+    for _ in range(160 if tier == "quick" else 1600):
+        units = []
+        for a in range(3):
+            us = set()
+            while len(us) < 6:       # integer starts in 0..13, lengths 1..11: every unit overlaps most of the others
+                st = rng.randrange(0, 14)
+                us.add((float(st), float(st + rng.randrange(1, 12)), rng.choice("ABC")))
+            units.append(sorted(us))
+        dense.append({"units": units, "spec": rng.choice([("comb", 1.0, 1.0, 1.0, "abs", "abc", "asis"), ("comb", 1.0, 1.0, 1.0, "abs", "abc", "asis"), ("pos", 1.0),
+                                                          ("comb", 0.5, 3.0, 1.0, "abs", "abc", "asis")]), "pattern": "dense", "unlabelled": False})
+    for soft in (False, True):
+        sub = dense if not soft else dense[:len(dense) // 2]
+        r1 = ac.align_many(pa, [(case, "cbc", soft) for case in sub])
+        r2 = ac.align_many(pa, [(case, "glpk-noimport", soft) for case in sub])
+        for case, a, b in zip(sub, r1, r2):
+            rep.count("group=dense")
+            ok = a["error"] is None and b["error"] is None
+            rep.case(nontrivial_key=(repr(case["units"]), case["spec"], soft, "dense") if ok else None)
+            if ok and not close(Fraction(float(a["disorder"])), Fraction(float(b["disorder"])), TAU2):
+                rep.violation("backend-disorder", {"units": case["units"], "dissim": case["spec"], "soft": soft,
+                                                   "disorders": [float(a["disorder"]), float(b["disorder"])]},
+                              "disorders differ across back-ends: CBC %r, fallback %r" % (float(a["disorder"]), float(b["disorder"])))
+            elif not ok:
+                rep.violation("does-not-return", {"units": case["units"], "dissim": case["spec"], "soft": soft, "errors": [a["error"], b["error"]]},
+                              "an alignment did not return: %r / %r" % (a["error"], b["error"]))
     for grp, cases in (("small", small), ("medium", medium)):
         for soft in (False, True):
             per_mode = {}
